@@ -516,8 +516,38 @@ def events(cfg):
     return ev
 
 
+KEY_UNIVERSE = ["render_body", "render_d", "K1", "ka", "kb", "x", "y", "n", "render_b", "render_render_k"]
+
+
+def real_state(w):
+    """what the real backend holds, observed from outside the code under test.  It is part of the search key
+    (never an oracle): where an implementation leaves the backend in another state than the model expects
+    without any visible symptom yet, the search continues from THAT state instead of merging it with the
+    state the model believes in."""
+    out = []
+    for ti, t in enumerate(w.templates):
+        # sections whose arguments the Cache object has memoised (first-use state of the template)
+        out.append(("memo", ti, tuple(sorted(getattr(t.cache, "_def_regions", {})))))
+    if w.cfg["backend"] == "rec":
+        starts = {t.cache.id: t.cache.starttime for t in w.templates}
+        for (cid, k), (val, stamp) in sorted(w.cc.STORE.items(), key=lambda kv: (str(kv[0][0]), str(kv[0][1]))):
+            fresh = stamp >= starts.get(cid, 0)
+            out.append((str(cid), str(k), str(val) if fresh else "<stale>"))
+        return tuple(map(str, out))
+    for ti, t in enumerate(w.templates):
+        keys = KEY_UNIVERSE + [w.models[ti].info["anon"]]
+        for k in keys:
+            try:
+                v = t.cache.impl.get(k, **dict(t.cache.template.cache_args))
+            except BaseException:  # noqa
+                v = None
+            if v is not None and type(v).__name__ != "NoValue":
+                out.append((ti, k, str(v)))
+    return tuple(map(str, out))
+
+
 def key_of(w):
-    return tuple(w.version) + tuple((tuple(sorted((k, v[1] if v[1] == "set" else v[0]) for k, v in m.store.items())), m.enabled, m.ghost) for m in w.models)
+    return tuple(w.version) + tuple((tuple(sorted((k, v[1] if v[1] == "set" else v[0]) for k, v in m.store.items())), m.enabled, m.ghost) for m in w.models) + (real_state(w),)
 
 
 def initial_key(cfg):
